@@ -119,6 +119,15 @@ var ZGoMods = []ZGoMod{
 	{"module example.com/m\n\ngo 1.24 // as of this release\n", "1.24", "new"},
 	{"go\t1.25\n", "1.25", "new"},
 	{"module example.com/m\n\ngo\t1.23\n", "1.23", "old"},
+	// non-ASCII around the go line: a no-break space, an ideographic space or a byte order mark is not white
+	// space to the reader (the file is unparsable); an undecodable byte inside a word of a skipped line is
+	// just a character; a requirement whose version has a Latin-1 letter spoils the file
+	{"module example.com/m\n\ngo 1.24\u00a0\n", "", "unparsable"},
+	{"module example.com/m\n\ngo\u30001.24\n", "", "unparsable"},
+	{"\ufeffmodule example.com/m\n\ngo 1.24\n", "", "unparsable"},
+	{"module example.com/m\n\ngo 1.24\n\nexclude example.com/it\x92s v1.0.0\n", "1.24", "new"},
+	{"module example.com/m\n\ngo 1.24\n\nrequire example.com/x v1.0.0-b\u00eata\n", "", "unparsable"},
+	{"module example.com/m\n\ngo 1.24\n\nrequire example.com/x v1.0.0-b\xe9ta\n", "", "unparsable"},
 	// spellings only the lenient reading accepts: it keeps major.minor
 	{"module example.com/m\n\ngo v1.24.0\n", "1.24", "new-lax"},
 	{"module example.com/m\n\ngo 1.24.x\n", "1.24", "new-lax"},
@@ -152,13 +161,17 @@ var zSafeBases = []string{"a.go", "c.go", "main.go", "x_test.go", "foo.go", "REA
 	"sp ace.go", " lead", "con1", "com10", "conx", "x.con", "nul_", ".hg_archival.txt", "go.mod", "sum.golang.org"}
 
 var zHostileDirs = []string{"B/", "b/C/", "É/", "K/", "\u212A/", "STRAẞE/", "Sub/", "SUB/deep/", "Vendor/x/", "VENDOR/x/", "con/", "aux.d/", "x./", "q?/",
-	".git/", ".hg/", ".svn/", ".bzr/", "a/../", "./", "/abs/", "a//", "../", "b/./", "nul/", "lpt1.x/", "a..b/", "foo~1/", "\xff/", "e\u0301/"}
+	".git/", ".hg/", ".svn/", ".bzr/", "a/../", "./", "/abs/", "a//", "../", "b/./", "nul/", "lpt1.x/", "a..b/", "foo~1/", "\xff/", "e\u0301/",
+	// letters whose case-folded form is shorter in UTF-8 than they are (Ohm, long s, Angstrom, capital sharp s)
+	"\u2126x/", "\u017fs/d/", "\u212b/", "\u1e9e/q/"}
 var zHostileBases = []string{"A.go", "C.go", "K.go", "k.go", "ẞ.txt", "SS.txt", "É.go", "e\u0301.go", "ς", "Σ", "ǅ", "Ǆ", "s.go", "S.go",
 	"GO.MOD", "Go.mod", "go.MOD", "license", "License", ".HG_ARCHIVAL.TXT", "README", "readme", "Main.go",
 	"con", "CON", "con.txt", "Con.tar.gz", "aux", "nul", "NUL.go", "com1", "COM9.x", "lpt1", "LPT0", "COM0", "prn", "PRN.a.b",
 	"tr.", "...", "trail ", "q?.go", "st*r", "a:b", "x\\y", "qu\"ote", "pi|pe", "<lt", ">gt", "`bt", "'sq", "semi;colon",
 	"foo~1.txt", "foo~1", "~1", "a..b", "..a", "emoji😀", "digit٣", "ⅷ", "\xff", "bad\xc3", "nul\x00x", "tab\tx", "nl\nx", "del\x7f", "\ufffd",
 	"²", "x\u200bx", "x\u00a0x",
+	// white space other than U+0020 at either end of a name
+	"end\u00a0", "\u3000lead.go", "end.go\u2028", "end\t", "end.go\n", "\u0085x", "x.go\r", "go.mod\u00a0", "\u2003go.mod",
 	// non-letter runes whose low byte is an allowed ASCII byte
 	"inv\u202efdp.exe", "a\u2028b", "p\u2029q", "\u2025", "x\u0323", "at\uff20", "dag\u2020", "f\u2061x", "e\u212e", "per\u2030", "int\u203d", "sp\u3000ace", "m\u205fs",
 	// non-letters that share their low 16 bits with a letter of the safe pool (and one letter that shares them with a non-letter)
@@ -296,7 +309,7 @@ func ZList(r *rand.Rand, o ZOpts) (files []*ZFile, theme string) {
 		if !o.Plain {
 			dirs = append(dirs, pick(zHostileDirs, 1+r.IntN(2))...)
 		} else {
-			dirs = append(dirs, pick([]string{"B/", "b/C/", "É/", "K/", "\u212A/", "STRAẞE/", "Sub/", "Vendor/x/", "con/", "aux.d/", "x./", "q?/", "nul/", "a..b/", "e\u0301/"}, 1+r.IntN(2))...)
+			dirs = append(dirs, pick([]string{"B/", "b/C/", "É/", "K/", "\u212A/", "STRAẞE/", "Sub/", "Vendor/x/", "con/", "aux.d/", "x./", "q?/", "nul/", "a..b/", "e\u0301/", "\u2126x/", "\u017fs/d/", "\u212b/"}, 1+r.IntN(2))...)
 		}
 		bases = append(bases, pick(zHostileBases, 1+r.IntN(4))...)
 		bases = append(bases, "e"+string(BoundaryRune(r))+".go", string(BoundaryRune(r)))
@@ -515,6 +528,13 @@ var zBadModules = []ZModule{
 	{"cmd/go.mod", "v0.1.0", "bad-path"},
 	{"corp/team/lib.go/v2", "v2.0.0", "bad-path"},
 	{"Example.com/m", "v1.0.0", "bad-path"},
+	// letters and signs beyond ASCII whose low byte is an allowed ASCII character, and versions with such bytes
+	{"example.com/\u4e2d", "v1.0.0", "bad-path"},
+	{"example.com/a\u017e", "v1.0.0", "bad-path"},
+	{"example.com/x\u2030y", "v1.0.0", "bad-path"},
+	{"example.com/m", "v1.0.0-b\u00eata", "bad-version"},
+	{"example.com/m", "v1.\u0662.3", "bad-version"},
+	{"example.com/m", "v1.0.0+\xe9", "bad-version"},
 	{"example.com/.m", "v1.0.0", "bad-path"},
 	{"example.com/m/", "v1.0.0", "bad-path"},
 	{"example.com//m", "v1.0.0", "bad-path"},
